@@ -14,6 +14,7 @@ H = {
     'cpp-realtrng': dict(name='cpp-realtrng', sources=['h_cpp.cpp', 'getrandom_tape.c'], cxx=True),
     'sym': dict(name='sym', sources=['h_sym.c']),
     'wipe': dict(name='wipe', sources=['h_wipe.cpp', 'trng_tape.c'], cxx=True, extra_flags=['-O3']),
+    'abi': dict(name='abi', sources=['h_abi.c', 'tramp_x86_64.S', 'trng_tape.c']),
     'mt': dict(name='mt', sources=['h_mt.c'], libs=['-lpthread']),
     'ct': dict(name='ct', sources=['h_ct.c'], extra_flags=['-O1']),
     'prng': dict(name='prng', sources=['h_prng.c']),
